@@ -1100,6 +1100,17 @@ pub fn norm(s: &ConfigState) -> ConfigState {
 pub fn norm_eq(a: &ConfigState, b: &ConfigState) -> bool {
     norm(a) == norm(b)
 }
+/// additionally forgets the order of the tcp / udp frontend buckets (they are sets)
+pub fn norm_set(s: &ConfigState) -> ConfigState {
+    let mut s = norm(s);
+    for v in s.tcp_fronts.values_mut() {
+        v.sort();
+    }
+    for v in s.udp_fronts.values_mut() {
+        v.sort();
+    }
+    s
+}
 
 fn err_name(e: &StateError) -> &'static str {
     match e {
@@ -1177,7 +1188,8 @@ pub fn replay_paths(s: &ConfigState) -> Vec<ReplayVerdict> {
     out.push(ReplayVerdict { path: "statefile", ok: e2 == 0 && msg.is_none() && n == init.requests.len(), eq: norm_eq(&r2, s), exact: cfg_eq(&r2, s), detail: format!("{e2} rejected, wrote {n}, {}", msg.unwrap_or_default()) });
     // 3. protobuf bootstrap blob
     let mut f = tempfile();
-    let n3 = s.write_initial_state_to_file(&mut f).unwrap_or(usize::MAX);
+    // the library prints a progress line on stdout here: keep it out of the protocol stream
+    let n3 = quiet_stdout(|| s.write_initial_state_to_file(&mut f).unwrap_or(usize::MAX));
     f.seek(SeekFrom::Start(0)).unwrap();
     match read_initial_state(&mut f) {
         Ok(is) => {
@@ -1194,6 +1206,21 @@ pub fn replay_paths(s: &ConfigState) -> Vec<ReplayVerdict> {
         Err(e) => out.push(ReplayVerdict { path: "json", ok: false, eq: false, exact: false, detail: format!("{e}") }),
     }
     out
+}
+
+fn quiet_stdout<T>(f: impl FnOnce() -> T) -> T {
+    use std::os::fd::AsRawFd;
+    let _ = std::io::stdout().flush();
+    let devnull = std::fs::OpenOptions::new().write(true).open("/dev/null").unwrap();
+    let saved = unsafe { libc::dup(1) };
+    unsafe { libc::dup2(devnull.as_raw_fd(), 1) };
+    let r = f();
+    let _ = std::io::stdout().flush();
+    unsafe {
+        libc::dup2(saved, 1);
+        libc::close(saved);
+    }
+    r
 }
 
 fn tempfile() -> std::fs::File {
@@ -1307,6 +1334,7 @@ pub fn run(cx: &Ctx, case: &Case, out: &mut Out, mode: Mode) {
                 let d = x.diff(y);
                 let mut z = x.clone();
                 let mut errs = 0;
+                let mut other_errs = 0;
                 let mut first_err = String::new();
                 for r in &d {
                     if let Err(e) = z.dispatch(r) {
@@ -1314,22 +1342,41 @@ pub fn run(cx: &Ctx, case: &Case, out: &mut Out, mode: Mode) {
                             first_err = format!("{} -> {e}", r.short_name());
                         }
                         errs += 1;
+                        if !matches!(r.request_type, Some(RequestType::RemoveTcpFrontend(_)) | Some(RequestType::RemoveUdpFrontend(_))) {
+                            other_errs += 1;
+                        }
                     }
                 }
-                let reached = norm_eq(&z, y);
-                let same = norm_eq(x, y);
+                // the known class: one cluster holds two tcp (or udp) frontends at the same address
+                let dup_addr = |s: &ConfigState| {
+                    let t = s.tcp_fronts.values().any(|v| v.iter().enumerate().any(|(i, f)| v[..i].iter().any(|g| g.address == f.address)));
+                    let u = s.udp_fronts.values().any(|v| v.iter().enumerate().any(|(i, f)| v[..i].iter().any(|g| g.address == f.address)));
+                    t || u
+                };
+                let known_t = dup_addr(x) || dup_addr(y);
+                let reached = norm_set(&z) == norm_set(y);
+                let same = norm_eq(&z, y);
                 out.obs(&[tn(d.len() as i128), tn(errs), tn(reached as i128)]);
                 if mode == Mode::C06 {
                     if errs > 0 {
-                        out.viol("diff-rejected", &format!("{errs} of the {} requests of diff(A,B) rejected by an instance holding A (first: {first_err}); A: {} B: {}", d.len(), brief(cx, x), brief(cx, y)));
+                        out.viol(if known_t && other_errs == 0 { "diff-known-tfront-rejected" } else { "diff-rejected" }, &format!("{errs} of the {} requests of diff(A,B) rejected by an instance holding A (first: {first_err}); A: {} B: {}", d.len(), brief(cx, x), brief(cx, y)));
                     }
                     if !reached {
-                        out.viol("diff-not-reached", &format!("applying diff(A,B) to A does not yield B; A: {} B: {} got: {}", brief(cx, x), brief(cx, y), brief(cx, &z)));
+                        let (eg, eb) = (entries(cx, &norm_set(&z)), entries(cx, &norm_set(y)));
+                        let gs: BTreeSet<&Entry> = eg.iter().collect();
+                        let bs: BTreeSet<&Entry> = eb.iter().collect();
+                        let secs: BTreeSet<i128> = gs.symmetric_difference(&bs).map(|e| e.key[0]).collect();
+                        out.viol(
+                            if known_t && secs.iter().all(|x| *x == 9 || *x == 10) { "diff-known-tfront-not-reached" } else { "diff-not-reached" },
+                            &format!("applying diff(A,B) to A does not yield B; differing sections {:?}; got-vs-B:{}; A: {} B: {}", secs, entry_diff(&eb, &eg), brief(cx, x), brief(cx, y)),
+                        );
                     }
                     if cfg_eq(x, y) && !d.is_empty() {
                         out.viol("diff-nonempty", &format!("diff of equal configurations has {} requests", d.len()));
                     }
-                    let _ = same;
+                    if reached && !same {
+                        out.viol("diff-order-only", "applying diff(A,B) to A yields B's tcp/udp frontends in a different bucket order (Vec equality, which the debug assertion inside diff() uses, fails)");
+                    }
                 }
             }
             _ => match build_request(cx, op) {
